@@ -84,6 +84,16 @@ ENC = ["csvpath/csvpaths.py:CsvPaths.collect_paths/fast_forward_paths/next_paths
        "csvpath/util/error.py:ErrorHandler.handle_error/build", "csvpath/util/line_spooler.py:CsvLineSpooler"]
 
 
+class _Clock:
+    """stands in for datetime inside csvpath.csvpaths: the harness sets the time a run starts at"""
+
+    NOW = None
+
+    @classmethod
+    def now(cls, tz=None):
+        return cls.NOW
+
+
 POLICIES = {"rcp": ("raise, collect, print", None), "rcs/c": ("raise, collect, stop", "collect")}
 
 
@@ -95,7 +105,7 @@ POLICIES = {"rcp": ("raise, collect, print", None), "rcs/c": ("raise, collect, s
     bound="group of 3 members over a 5-record file (quoted delimiter, embedded newline); abort point (member am, line ak) symbolic "
     "over -1..MHI x -1..KHI = every abort point and 'no abort'; run method and error policies per shard (csvpath policy 'raise, collect, print' with the default csvpaths policy, or 'raise, collect, stop' with a csvpaths policy that has no 'raise'); afterwards: exception reached the caller; "
     "run manifest status; per started member: meta/vars/errors readable, errors.json names line ak, manifest completed; inputs "
-    "stores byte-identical; a second run on the same instance archives normally in its own run directory",
+    "stores byte-identical; a second run on the same instance (7 s later, stubbed clock) archives normally in its own run directory named by its own start time",
     outside="I/O faults; groups of 1, 2 or 4; files of more than 5 lines; the symbolic abort point is realised when the archive is "
     "written, so the solver drives a walk over the box (each path still ends in a z3-checked assertion)",
     encodes=ENC,
@@ -104,6 +114,24 @@ POLICIES = {"rcp": ("raise, collect, print", None), "rcs/c": ("raise, collect, s
            "thorough": {"timeout": 5000, "K": {"MHI": 3, "KHI": 5}, "shards": product(method=list(SERIAL + BYLINE), am=[-1, 0, 1, 2, 3]) + product(method=list(SERIAL + BYLINE), am=[0, 2], pol=["rcs/c"])}},
 )
 def abort_record(method: str, am: int, ak: int, pol: str = "rcp") -> Dict[str, object]:
+    import datetime
+    import csvpath.csvpaths as _cps
+    from csvpath.managers.results.result_serializer import ResultSerializer
+
+    t0 = datetime.datetime(2031, 5, 6, 9, 30, 0, tzinfo=datetime.timezone.utc)
+    t1 = t0 + datetime.timedelta(seconds=7)
+    saved = _cps.datetime
+    with NoTracing():
+        _cps.datetime = _Clock
+        _Clock.NOW = t0
+    try:
+        return _abort_record(method, am, ak, pol, t1, ResultSerializer("archive").get_run_dir_name_from_datetime(t1))
+    finally:
+        with NoTracing():
+            _cps.datetime = saved
+
+
+def _abort_record(method, am, ak, pol, t1, stamp1) -> Dict[str, object]:
     with NoTracing():
         root, cs = kitpaths.env({"g": MEMBERS}, policy=POLICIES[pol][0], paths_policy=POLICIES[pol][1])
         before = kitpaths.tree_digest("inputs")
@@ -119,7 +147,9 @@ def abort_record(method: str, am: int, ak: int, pol: str = "rcp") -> Dict[str, o
         man, members = _observe(os.path.join("archive/g", runs[0]))
         first = kitpaths.tree_digest(os.path.join("archive/g", runs[0]))
         after = kitpaths.tree_digest("inputs")
-    # a further run on the same instance, without abort
+    # a further run on the same instance, 7 seconds later, without abort
+    with NoTracing():
+        _Clock.NOW = t1
     kit.HOLD["symam"] = -1
     kit.HOLD["symak"] = -1
     second_ok = True
@@ -134,6 +164,8 @@ def abort_record(method: str, am: int, ak: int, pol: str = "rcp") -> Dict[str, o
             other = [r for r in runs2 if r != runs[0]][0]
             man2, members2 = _observe(os.path.join("archive/g", other))
             second_ok = man2.get("status") == "complete" and len(members2) == NM and all(m["readable"] for m in members2.values())
+            # it is archived under its own start time, not under the aborted run's
+            second_ok = second_ok and other == stamp1
         kitpaths.cleanup(root)
     return {"raised": raised, "run_status_complete": man.get("status") == "complete", "members": members,
             "stores_unchanged": before == after, "second_run_ok": second_ok, "second_run_own_dir": own}
